@@ -27,3 +27,4 @@ void *bsearch(const void *key, const void *base, size_t n, size_t size, int (*cm
         if (c == 0) return (void *) p; if (c < 0) hi = mid; else lo = mid + 1; }
     return NULL;
 }
+void *memchr(const void *s, int c, size_t n){ const unsigned char *p = s; for (size_t i = 0; i < n; i++) { if (p[i] == (unsigned char) c) return (void *) (p + i); } return NULL; }
